@@ -273,3 +273,32 @@ def _kw_rewritten(f, kwname, p, tags, helper, s):
             if _is_translated(st.value, tags, helper, s):
                 return True
     return False
+
+
+def run_thorough(ctx):
+    """Package-wide sweep: the data-access family (same method names) in *every* module of glue/, not only the anchored ones."""
+    ix = ctx.index
+    R = 'C04.a+'
+    ctx.describe(R, 'package-wide: data-access methods with a view parameter return view-dependent values')
+    seen = {f.construct for f, _ in family(ix)}
+    allf = list(ix.functions.values())
+    for c in ix.classes.values():
+        for mem in c.members.values():
+            if mem.func is not None:
+                allf.append(mem.func)
+    n = 0
+    for f in sorted(allf, key=lambda x: x.construct):
+        if f.construct in seen or f.name not in FAMILY_NAMES:
+            continue
+        vp = [p for p in f.params if p in VIEW_PARAMS]
+        if not vp or (f.name == '__getitem__'):
+            continue
+        seen.add(f.construct)
+        n += 1
+        for r, dep in view_flow(f, vp[0]):
+            if r.value is None:
+                continue
+            ok = dep or _none_only(f, vp[0], r)
+            ctx.ob(R, '%s `%s`' % (f.construct, norm(r)), 'the returned value depends on the view', ok,
+                   detail='%s returns `%s` independently of its %s parameter' % (f.construct, norm(r), vp[0]), where=where(f, r))
+    ctx.ob(R, 'glue', '%d further data-access functions swept' % n, True, nontrivial=False)
